@@ -274,6 +274,7 @@ inductive XOp where
   | reset                      -- `optional::reset()` = `emplace<0>(nullopt)`
   | cctor | mctor | cassign | massign | cassignSelf | swap | swapSelf
   | use
+  | assignOwn                  -- `v = get<index()>(v)`: converting assignment from the held alternative itself
   deriving Repr, DecidableEq, Inhabited
 
 def xstep (k : Kind) (trk : Nat → Bool) (s : St) (t : Bool) (op : XOp) : Except LErr St :=
@@ -309,6 +310,10 @@ def xstep (k : Kind) (trk : Nat → Bool) (s : St) (t : Bool) (op : XOp) : Excep
     match varSwap k trk m sl ix sl ix tv with
     | .error e => .error e
     | .ok (m1, nt, _) => .ok (s.put t m1 nt)
+  | .assignOwn =>
+    -- `operator=(T&& t)` is `emplace<J>(forward<T>(t))`: `destroy()` runs first, then the new alternative is
+    -- copy-constructed from `t`, which is the object that was just destroyed
+    s.upd t (varEmplace k trk m sl ix ix (.copy (.slot sl)))
   | .use =>
     match varUse trk m sl ix with
     | .error e => .error e
